@@ -36,6 +36,18 @@ def post(check, pairs, stats):
     matrix (a projection that never met one of the options in this run) is a broken obligation of the check itself."""
     import json
     m = {}
+    # tw lines (route decision, fix b165df1): how many were really compared with their +datum=WGS84 twin
+    tw = {"twin": 0, "notwin": 0, "geoLower": 0, "projLower": 0}
+    for impl, verdict in pairs:
+        if impl.startswith("tw "):
+            v = verdict.split(" ", 2)
+            if len(v) > 1 and v[1].startswith("twin-"):
+                tw["twin"] += 1
+                for k in ("geoLower", "projLower"):
+                    if k in impl.split(" ", 2)[1]:
+                        tw[k] += 1
+            else:
+                tw["notwin"] += 1
     for impl, _ in pairs:
         t = impl.split(" ", 2)
         if len(t) < 3 or t[0] != "rt":
@@ -51,7 +63,10 @@ def post(check, pairs, stats):
             row[key] = row.get(key, 0) + 1
     check.cfg["explanation"] = ("generator matrix, rt lines (8 positions x 3 legs each) per projection x option this run: "
                                 + json.dumps(m, sort_keys=True))
+    check.cfg["explanation"] += "; tw lines (lower-case wgs84 datum code against a 3-/7-parameter datum, compared bit for bit with the +datum=WGS84 twin): " + json.dumps(tw, sort_keys=True)
     holes = []
+    if tw["geoLower"] < 50 or tw["projLower"] < 50 or tw["notwin"] > 0:
+        holes.append("route-decision stratum: %s (need >= 50 compared twin lines with the lower-case code on each side, none uncompared)" % json.dumps(tw, sort_keys=True))
     for name in NAMES:
         need = ["sphere", "ellipsoid", "R_A", "pmN", "pmX", "dn", "d3", "d7", "ab", "arf", "geo:gW", "geo:gS", "geo:gX"]
         if name != "longlat":
@@ -90,7 +105,9 @@ CFG = {
         # the 7-parameter stage: exact residual of the small-angle inverse and its bound (the judge's a-priori bound)
         "C08_helmert_residual", "C08_helmert_residual_bound", "rot_sq_le_sum_sq", "C08_helmert_not_identity",
         # the model of the whole NewTransform closure, both directions composed (routes without a datum shift)
-        "datumTransform_nodatum", "C08_transform_roundtrip", "C08_transform_roundtrip_exact", "C08_transform_merc_sphere", "C08_constructors_ok"]] + [
+        "datumTransform_nodatum", "C08_transform_roundtrip", "C08_transform_roundtrip_exact", "C08_transform_merc_sphere", "C08_constructors_ok",
+        # the route decision of NewTransform (checkNotWGS after fix b165df1: strings.EqualFold)
+        "goEqualFold_WGS84_iff", "C08_checkNotWGS_iff", "C08_route_case_insensitive", "C08_route_unfixed_case_sensitive", "C08_route_wkt_direct"]] + [
         # tie T1: model = definitions regenerated from the current Go source (rfl)
         T + "Ties." + n for n in ["tie_initMerc", "tie_fwdMerc", "tie_invMerc", "tie_initLcc", "tie_fwdLcc", "tie_invLcc",
                                   "tie_initAea", "tie_fwdAea", "tie_invAea", "tie_aeaPhi1zStep", "tie_initEqdc", "tie_fwdEqdc",
@@ -126,7 +143,7 @@ CFG = {
             "over the usable region including its border (|dlon| = 3.5 deg for tmerc/utm, |lat| = 85 merc, cone-side latitudes, standard parallels, lat_0); one case = one definition pair with 8 positions, "
             "each run through A->B, B->A, A->B on ONE reused forward and ONE reused inverse transformer per line (plus a fresh-per-call control); "
             "plus WKT-defined systems (ESRI Mercator_Auxiliary_Sphere, and the testData PROJCS texts of the supported kinds); plus one `cl` line per parameterisation: the closure pair of "
-            "sr.Transformers() obtained once, 8 in-region positions, then rejected calls (poles, NaN, out of range), then the 8 positions again, against freshly obtained closures; plus `cc` lines (tmerc/lcc/aea/merc/longlat, fully specified, no datum shift: the definitions for which the unchanged tree is write-free per call under go -race): 8 goroutines share one transformer pair, every answer compared with the sequential one. distinct = distinct input line; non-trivial = every class",
+            "sr.Transformers() obtained once, 8 in-region positions, then rejected calls (poles, NaN, out of range), then the 8 positions again, against freshly obtained closures; plus `tw` lines (route decision of NewTransform): a reference whose datum code is the lower-case wgs84 (WKT GEOGCS/PROJCS on D_WGS_1984 / WGS_1984, or +datum=wgs84) against a reference on a 3-/7-parameter datum (named or +towgs84), tmerc/merc/lcc/aea/eqdc, each compared bit for bit on all three legs with its twin pair written with +datum=WGS84 (>= 50 compared lines per side per run, checked); plus `cc` lines (tmerc/lcc/aea/merc/longlat, fully specified, no datum shift: the definitions for which the unchanged tree is write-free per call under go -race): 8 goroutines share one transformer pair, every answer compared with the sequential one. distinct = distinct input line; non-trivial = every class",
     "timeout": {"quick": 900, "thorough": 3000},
     "trivial_class": r"^$",
 }
